@@ -105,6 +105,11 @@ def pair_cases():
             continue
         out.append(("pair", [a, b], [ea, eb]))
         out.append(("pair", [b, a], [eb, ea]))
+    # settings that share one mode: the order on the command line decides
+    br = [("breeze_away", rd.P_BREEZE_AWAY), ("breezeless", rd.P_BREEZELESS), ("breeze_mild", rd.P_BREEZE_CONTROL)]
+    for (na, pa), (nb, pb) in ((x, y) for x in br for y in br if x != y):
+        for va, vb in ((0, 1), (1, 0), (1, 1), (0, 0)):
+            out.append(("breeze pair", [f"{na}={va}", f"{nb}={vb}"], [(("prop", pa), bool(va)), (("prop", pb), bool(vb))]))
     return out
 
 
@@ -188,6 +193,7 @@ def expected_state(rep_i, exps, breeze_control=False):
     st = dict(base.state)
     props = {}
     beep = None
+    breeze_mode, breeze_touched = 1, set()
     for target, val in exps:
         if target is None:
             continue
@@ -201,18 +207,22 @@ def expected_state(rep_i, exps, breeze_control=False):
             pid = target[1]
             if pid == rd.P_IECO:
                 props[pid] = bytes([0, 1, 1 if val else 0]) + bytes(10)
-            elif breeze_control and pid in (rd.P_BREEZE_AWAY, rd.P_BREEZELESS, rd.P_BREEZE_CONTROL):
-                # the device advertises breeze control: all three settings travel under that id (1 off, 2 away, 3 mild, 4 breezeless)
+            elif pid in (rd.P_BREEZE_AWAY, rd.P_BREEZELESS, rd.P_BREEZE_CONTROL):
+                # the three breeze settings are one mode: settings are applied in command-line order, switching one on selects
+                # it, switching one off selects "off" (1 off, 2 away, 3 mild, 4 breezeless)
                 on = {rd.P_BREEZE_AWAY: 2, rd.P_BREEZE_CONTROL: 3, rd.P_BREEZELESS: 4}[pid]
-                props[rd.P_BREEZE_CONTROL] = bytes([on if val else 1])
-            elif pid == rd.P_BREEZE_AWAY:
-                props[pid] = bytes([2 if val else 1])
-            elif pid == rd.P_BREEZE_CONTROL:
-                props[pid] = bytes([3 if val else 1])
+                breeze_mode = on if val else 1
+                breeze_touched.add(pid)
             else:
                 props[pid] = bytes([int(val)])
         else:
             st[target] = val
+    if breeze_touched and breeze_control:
+        props[rd.P_BREEZE_CONTROL] = bytes([breeze_mode])      # the unit advertises breeze control: one id carries the mode
+    else:
+        for pid in breeze_touched:                             # legacy ids, vendor encodings
+            props[pid] = (bytes([2 if breeze_mode == 2 else 1]) if pid == rd.P_BREEZE_AWAY else
+                          bytes([breeze_mode]) if pid == rd.P_BREEZE_CONTROL else bytes([1 if breeze_mode == 4 else 0]))
     return st, props, beep
 
 
